@@ -196,6 +196,10 @@ fn reproduces(base: &WorkerSpec, tape: &[u32], prop: &str, invariant: &str, time
     // an empty tape means "the worker died before it could report its tape": re-run from the seed
     s.tape = if tape.is_empty() { None } else { Some(tape.to_vec()) };
     s.out = format!("{}.min{}", base.out, tag);
+    // the wall-clock backstop is not an oracle (the deterministic ptrace-call budgets are): a
+    // run it cut is confirmed alone, with three times the allowance, so that a slow run on a
+    // loaded machine completes while a real hang still does not come back
+    let timeout = if invariant == "worker_timeout" { timeout * 3 } else { timeout };
     let r = run_worker(&s, timeout);
     let hit = match invariant {
         "worker_crash" => r.verdict == "crash" || r.verdict == "panic",
